@@ -6,6 +6,7 @@ import (
 	"fmt"
 	"math/rand"
 	"strings"
+	"sync/atomic"
 	"time"
 
 	"github.com/bool64/cache"
@@ -22,7 +23,7 @@ func init() {
 		Rule: "families of 2..4 constructed xxhash64-colliding 64-byte keys (equality of Sum64 asserted) plus plain keys; seeded sequences of Write/Read/Delete/Load/Store, Failover/FailoverOf.Get, AddLabels+InvalidateByLabels and Dump/Restore over them on all backends, " +
 			"judged by the collision-slot model (a key returns its own last value, or at most a miss if a partner was written since; never a partner's value, stale item or deletion); after every call that takes a key the passed buffer is overwritten " +
 			"(with a partner key / noise) and stored keys, label associations and the key of gated background builds are re-checked with fresh buffers; distinct_nontrivial = distinct (backend, family size, op-kind trace) sequences in which a partner write preceded a read/delete of the other key",
-		Required:    []string{"sequences", "collision.partner_written_then_read", "collision.partner_written_then_deleted", "collision.miss_observed", "buffer.overwritten_after_call", "bg.gated_builds", "labels.invalidations", "failover.gets", "dumprestore.checked", "kind.ShardedMap", "kind.SyncMap", "kind.ShardedMapOf"},
+		Required:    []string{"sequences", "collision.partner_written_then_read", "collision.partner_written_then_deleted", "collision.miss_observed", "buffer.overwritten_after_call", "bg.gated_builds", "collision.concurrent_rounds", "labels.invalidations", "failover.gets", "dumprestore.checked", "kind.ShardedMap", "kind.SyncMap", "kind.ShardedMapOf"},
 		Assumptions: []string{"collision keys are constructed for xxhash64 with seed 0 (cespare/xxhash v2) and verified at run time"},
 		Timeout:     func(string) time.Duration { return 45 * time.Minute },
 	})
@@ -36,6 +37,9 @@ func runC09(b *Batch) {
 		}
 		if i%5 == 4 {
 			c09Background(b, i)
+			if i%50 == 4 {
+				c09ConcurrentCollision(b, i)
+			}
 		} else {
 			c09Sequence(b, i)
 			collectGarbage(i)
@@ -413,5 +417,134 @@ func c09Background(b *Batch, idx int) {
 		if v, err := r.be.Read(bg, keys[1]); err != nil || v != other {
 			fail("bg-touched-other-key", fmt.Sprintf("the other key reads (%v,%v), want untouched %s", v, err, other))
 		}
+	}
+}
+
+// c09ConcurrentCollision: two colliding keys, each owned by one goroutine. Deleting k1 over and over must never remove k2's
+// entry: a Read of k2 right after its owner's Write has to return that value (nobody else writes or deletes k2).
+func c09ConcurrentCollision(b *Batch, idx int) {
+	rng := rand.New(rand.NewSource(b.CaseSeed(idx) ^ 0x1234567))
+	kind := backendKinds[rng.Intn(3)]
+	keys := collidingKeys(rng, 2)
+	be := newBackend(kind, cache.Config{EvictionStrategy: c16Strategies[rng.Intn(3)]})
+	rounds := 3000
+	done := make(chan struct{})
+	var clock int64
+	type iv struct{ c, r int64 }
+	var partnerWrites []iv
+	go func() {
+		defer close(done)
+		for i := 0; i < rounds*4; i++ {
+			be.Delete(bg, clone(keys[0]))
+			if i%3 == 0 {
+				// k1's owner also writes it now and then: such a write may evict k2 (a collision may cost a miss)
+				c := atomic.AddInt64(&clock, 1)
+				be.Write(bg, clone(keys[0]), "k0/w/x")
+				partnerWrites = append(partnerWrites, iv{c, atomic.AddInt64(&clock, 1)})
+			}
+		}
+	}()
+	lost := 0
+	first := ""
+	type miss struct {
+		c, r  int64
+		round int
+	}
+	var misses []miss
+	for i := 0; i < rounds; i++ {
+		tok := fmt.Sprintf("k1/w/%d", i)
+		c := atomic.AddInt64(&clock, 1)
+		be.Write(bg, clone(keys[1]), tok)
+		v, err := be.Read(bg, clone(keys[1]))
+		r := atomic.AddInt64(&clock, 1)
+		switch {
+		case err == nil && v == tok:
+		case errClass(err) == "notfound":
+			misses = append(misses, miss{c, r, i}) // judged below: legitimate only if the partner wrote k1 in between
+		default:
+			lost++
+			if first == "" {
+				first = fmt.Sprintf("round %d: Read(k2) after Write(k2,%s) returned (%v,%v)", i, tok, v, err)
+			}
+		}
+	}
+	<-done
+	for _, m := range misses {
+		explained := false
+		for _, w := range partnerWrites {
+			if w.c < m.r && w.r > m.c { // a write of the colliding key overlaps [Write(k2), Read(k2)]
+				explained = true
+				break
+			}
+		}
+		if !explained {
+			lost++
+			if first == "" {
+				first = fmt.Sprintf("round %d: k2 vanished between its Write and Read although the other goroutine wrote nothing in between (it only called Delete(k1))", m.round)
+			}
+		}
+	}
+	// second phase: the partner only deletes (never writes): now a miss of k2 is a deletion of a different key
+	done2 := make(chan struct{})
+	stop := int32(0)
+	go func() {
+		defer close(done2)
+		for atomic.LoadInt32(&stop) == 0 {
+			be.Delete(bg, clone(keys[0]))
+		}
+	}()
+	missed := 0
+	for i := 0; i < rounds; i++ {
+		tok := fmt.Sprintf("k1/w2/%d", i)
+		be.Write(bg, clone(keys[1]), tok)
+		v, err := be.Read(bg, clone(keys[1]))
+		if err != nil || v != tok {
+			missed++
+			if first == "" {
+				first = fmt.Sprintf("delete-only phase, round %d: Read(k2) after Write(k2,%s) returned (%v,%v) while the other goroutine only calls Delete(k1)", i, tok, v, err)
+			}
+		}
+	}
+	atomic.StoreInt32(&stop, 1)
+	<-done2
+	// third phase, barrier-synchronised rounds: k1 is present, then Delete(k1) and Write(k2) start at the same moment.
+	// Whatever their order, k2 must be present afterwards (nobody wrote k1 during the round).
+	var gate, fin, ack int64
+	doneP := make(chan struct{})
+	go func() {
+		defer close(doneP)
+		for i := 1; i <= rounds/3; i++ {
+			for atomic.LoadInt64(&ack) < int64(i-1) { // the owner has judged the previous round
+			}
+			be.Write(bg, clone(keys[0]), "k0/w/y")
+			atomic.AddInt64(&gate, 1) // ready
+			for atomic.LoadInt64(&gate) < int64(2*i) {
+			}
+			be.Delete(bg, clone(keys[0]))
+			atomic.AddInt64(&fin, 1)
+		}
+	}()
+	for i := 1; i <= rounds/3; i++ {
+		for atomic.LoadInt64(&gate) < int64(2*i-1) { // partner has written k1
+		}
+		tok := fmt.Sprintf("k1/w3/%d", i)
+		atomic.AddInt64(&gate, 1) // go
+		be.Write(bg, clone(keys[1]), tok)
+		for atomic.LoadInt64(&fin) < int64(i) {
+		}
+		if v, err := be.Read(bg, clone(keys[1])); err != nil || v != tok {
+			missed++
+			if first == "" {
+				first = fmt.Sprintf("barrier phase, round %d: Delete(k1) and Write(k2,%s) raced; afterwards Read(k2) returned (%v,%v)", i, tok, v, err)
+			}
+		}
+		atomic.AddInt64(&ack, 1)
+	}
+	<-doneP
+	b.R.Eval()
+	b.R.Count("collision.concurrent_rounds", int64(3*rounds))
+	b.R.Nontrivial(fmt.Sprintf("concurrent-collision/%s/%d", kind, idx%100))
+	if lost+missed > 0 {
+		b.R.Violate(b, idx, "C09:"+kind+":concurrent-delete-removed-partner", fmt.Sprintf("%d foreign results and %d lost entries of k2 while another goroutine deleted the colliding key k1: %s", lost, missed, first), map[string]interface{}{"backend": kind})
 	}
 }
